@@ -194,3 +194,48 @@ def ok_json(doc, ctype="application/activity+json"):
 
 def redirect(location, code=302):
     return http_response(status="HTTP/1.1 %d Found" % code, headers=("Location: " + location,), body=b"")
+
+
+HOSTILE_BITS = ["\x1b[7m", "\x1b[31;1m", "\x1b[2J", "\x1b]0;title\x07", "\x9b5m", "\r", "\x08\x08", "\x1b[0m\x1b[4m", "\x7f", "\u202e"]
+
+
+def hostile_error_world(rng, base):
+    """an intact activity / actor / post on one host whose performer, target, outbox, author or parent is behind a server that
+    answers with control sequences in the very bytes servitor's error messages quote (status line, Content-Type, Location)"""
+    w = World(base, 128)
+    n = rng.randrange(10 ** 6)
+    p = w.url(0, "/hostile-item%d" % n)
+    bad = w.url(1, "/hostile%d" % n)
+    h = rng.choice(HOSTILE_BITS)
+    h2 = rng.choice(HOSTILE_BITS)
+    form = rng.randrange(6)
+    if form == 0:
+        resp = ("HTTP/1.1 " + h + "OOPS" + h2 + " nothing\r\nContent-Type: application/activity+json\r\n\r\n{}").encode("utf-8")
+    elif form == 1:
+        resp = ("NOT" + h + "HTTP at all" + h2 + "\r\n\r\n").encode("utf-8")
+    elif form == 2:
+        resp = http_response(headers=("Content-Type: text/" + h + "html" + h2,), body=b"{}")
+    elif form == 3:
+        resp = http_response(headers=("Content-Type: " + h + "application/activity+json",), body=b"{}")
+    elif form == 4:
+        resp = http_response(status="HTTP/1.1 302 Found", headers=("Location: https://ho" + h + "st.invalid/" + h2,), body=b"")
+    else:
+        resp = http_response(status="HTTP/1.1 20" + h + "0 OK", body=b"{}")
+    w.serve(bad, resp)
+    shape = rng.randrange(5)
+    if shape == 0:
+        doc = {"type": rng.choice(["Announce", "Like", "Dislike"]), "id": p, "actor": bad,
+               "object": {"type": "Note", "id": w.url(0, "/n%d" % n), "name": "target", "content": "y", "x": 1}}
+    elif shape == 1:
+        doc = {"type": rng.choice(["Announce", "Like", "Create"]), "id": p, "object": bad}
+    elif shape == 2:
+        doc = {"type": "Person", "id": p, "name": "intact", "preferredUsername": "u", "outbox": bad}
+    elif shape == 3:
+        doc = {"type": "Note", "id": p, "name": "intact", "content": "x", "attributedTo": bad, "audience": bad, "inReplyTo": bad}
+    else:
+        doc = {"type": "Note", "id": p, "name": "intact", "content": "x", "replies": bad}
+    w.register_strings(doc)
+    w.serve(p, ok_json(doc))
+    w.user_input(p.encode())
+    w.meta.update({"hostile_error": form, "shape": shape})
+    return w
